@@ -47,6 +47,8 @@ def run(ctx):
         rule_enum(ctx, M)
         rule_take(ctx, M)
         rule_collect(ctx, M)
+        with ctx.renamed({"C14.RESVEC": "C15.COLLECT"}):
+            c14.rule_resvec(ctx, M)
         rule_map(ctx, M)
         rule_stack(ctx, M)
         with ctx.renamed({"X.WRAP": "C15.STACK"}):
@@ -300,7 +302,15 @@ def rule_collect(ctx, M):
     if ok:
         r = bi.body.reach([0], avoid_blocks=[pushes[0].block], stop_blocks=bi.return_blocks)
         ok = not any(x in r for x in bi.return_blocks) and pushes[0].block not in bi.body.reach(bi.body.succs(pushes[0].block))
-    ctx.check(ok, "C15.COLLECT", b.def_, "send pushes the given future into the group exactly once, on every path", site=b.span)
+    # send never consumes completions without storing them (no back-pressure loop that throws outputs away)
+    lost = []
+    for a in costream.group_next_awaits(bi):
+        item = ("field", ("variant", a.value, "Some"), 0)
+        ps = [s for s in bi.sites if s.key == ("Vec", "push") and s.arg(0) == cfield("output") and s.arg(1) == item]
+        if not ps:
+            lost.append(a.where)
+    ctx.check(ok and not lost, "C15.COLLECT", b.def_, "send pushes the given future into the group exactly once, on every path, and discards no completed output",
+              site=b.span, path=lost)
     for fn in ("progress", "flush"):
         b = ent[fn]
         ctx.require(b is not None, "VecConsumer::%s coroutine" % fn)
